@@ -208,8 +208,9 @@ class RP(RouterPeer):
 class FutRec:
     """Completion recorder of one request future; writes into the history."""
 
-    def __init__(self, ctx, kind, n, fut, issued_phase):
+    def __init__(self, ctx, kind, n, fut, issued_phase, on_err=None, reissued=False):
         self.kind, self.n, self.issued_phase = kind, n, issued_phase
+        self.reissued = reissued      # issued from inside the errback of another request
         self.results = []
         self.issued_at = len(ctx.H)
         H = ctx.H
@@ -222,15 +223,21 @@ class FutRec:
             def err(f):
                 self.results.append(("err", f.value))
                 H.append(("fut", kind, n, "err", type(f.value).__name__))
+                if on_err:
+                    on_err(self)
             fut.addCallbacks(ok, err)
         else:
             def done(f):
                 if f.cancelled():
                     self.results.append(("err", RuntimeError("cancelled")))
                     H.append(("fut", kind, n, "err", "cancelled"))
+                    if on_err:
+                        on_err(self)
                 elif f.exception() is not None:
                     self.results.append(("err", f.exception()))
                     H.append(("fut", kind, n, "err", type(f.exception()).__name__))
+                    if on_err:
+                        on_err(self)
                 else:
                     self.results.append(("ok", f.result()))
                     H.append(("fut", kind, n, "ok", type(f.result()).__name__))
@@ -282,6 +289,8 @@ class Life:
         self.futs = []
         self.sub = None
         self.reg = None
+        self.sub2 = None              # spares: what a re-issued unsubscribe / unregister acts on
+        self.reg2 = None
         self.checked = 0              # deciding observations made in this case
         self.nfut = 0
         self.leave_checked_after = False
@@ -518,6 +527,8 @@ class Life:
         if self.modes["onLeave"] not in DEFAULT_ONLEAVE_RAN:
             return
         for f in self.futs:
+            if f.reissued:
+                continue      # issued from an errback during the sweep itself: due when the transport is gone
             self.R.count("pending_after_leave_checked")
             self.checked += 1
             if not f.done:
@@ -581,16 +592,13 @@ class Life:
         self.R.seen("illegal_kinds", "%s/%s" % (phase0, name))
         self.checked += 1
         where = "pre" if pre else "post"
-        relaxed = base == "ABORT"     # router ABORT of an established session: also fine if treated as session end
-        if processed and not (relaxed and all(e[:2] in (("cb", "leave"), ("obs", "leave")) or e[0] == "txclose" for e in processed)):
+        if processed:
             what = processed[0]
             self.v("illegal-accepted/%s/%s/processed-%s-%s" % (where, name, what[0], what[1]),
                    "%s in phase '%s' was processed instead of being rejected: %s" % (name, phase0, [list(map(str, p[:3])) for p in processed[:4]]))
-        elif not rejected and not relaxed:
+        elif not rejected:
             self.v("illegal-accepted/%s/%s/not-rejected" % (where, name),
                    "%s in phase '%s' did not fail the transport (no close / abort requested)" % (name, phase0))
-        elif not rejected and relaxed and not processed:
-            self.v("illegal-accepted/%s/%s/ignored" % (where, name), "ABORT for an established session silently ignored")
         self.phase = "violated"
         self.end_reason = "illegal-" + where
 
@@ -617,8 +625,9 @@ class Life:
         self.sync()
         self.R.count("local_disconnect")
 
-    def do_setup(self):
-        """Put one subscription and one registration in place (needed for unsubscribe / unregister requests)."""
+    def do_setup(self, spares=0):
+        """Put one subscription and one registration in place (needed for unsubscribe / unregister requests);
+        ``spares``: a second pair, so that an errback can re-issue an unsubscribe / unregister."""
         if self.phase not in ("joined", "closing") or self.rp.ep.lost or self.tclosing():
             return
         s = self.session
@@ -632,27 +641,58 @@ class Life:
             return
         rs = FutRec(self, "setup-subscribe", -1, fs, self.phase)
         rr = FutRec(self, "setup-register", -2, fr, self.phase)
+        rs2 = rr2 = None
+        if spares:
+            try:
+                rs2 = FutRec(self, "setup-subscribe", -3, s.subscribe(lambda *a, **k: None, "com.c06.topic.spare"), self.phase)
+                rr2 = FutRec(self, "setup-register", -4, s.register(lambda *a, **k: 2, "com.c06.proc.spare"), self.phase)
+            except Exception as e:
+                self.H.append(("api-raise", "setup", type(e).__name__))
         self.sync()
+        ids = {"com.c06.topic": 9001, "com.c06.proc": 9002, "com.c06.topic.spare": 9003, "com.c06.proc.spare": 9004}
         for e in self.H[n:]:
             if e[0] == "tx" and e[1] == "SUBSCRIBE":
                 self.H.append(("rx", "SUBSCRIBED"))
-                self.rp.send([33, e[2][1], 9001])
+                self.rp.send([33, e[2][1], ids.get(e[2][3], 9009)])
             elif e[0] == "tx" and e[1] == "REGISTER":
                 self.H.append(("rx", "REGISTERED"))
-                self.rp.send([65, e[2][1], 9002])
+                self.rp.send([65, e[2][1], ids.get(e[2][3], 9010)])
         self.sync()
         if rs.results and rs.results[0][0] == "ok":
             self.sub = rs.results[0][1]
         if rr.results and rr.results[0][0] == "ok":
             self.reg = rr.results[0][1]
+        if rs2 and rs2.results and rs2.results[0][0] == "ok":
+            self.sub2 = rs2.results[0][1]
+        if rr2 and rr2.results and rr2.results[0][0] == "ok":
+            self.reg2 = rr2.results[0][1]
 
-    def issue(self, kinds, note="req"):
-        """Issue one request per kind and leave it unanswered.  Returns [(kind, 'raised'|FutRec|None)]."""
+    RETRY_OTHER = {"call": "publish", "publish": "subscribe", "subscribe": "register", "register": "call",
+                   "unsubscribe": "unregister", "unregister": "unsubscribe"}
+
+    def _reissue(self, rec, retry):
+        """Runs INSIDE the errback of ``rec`` (the common retry-on-error idiom): issue one more request of the
+        same / of another kind.  It either raises right away or returns a future that must be completed (with an
+        error) by the time the transport is gone."""
+        k2 = rec.kind if retry == "same" else self.RETRY_OTHER[rec.kind]
+        self.R.count("reissued_in_errback")
+        self.R.count("reissued_in_errback_" + rec.kind)
+        for kind, r in self.issue([k2], note="retry-of-%s" % rec.kind, tag="redo", reissued=True):
+            if isinstance(r, FutRec):
+                self.R.count("reissued_future_returned")
+                self.R.seen("reissue_outcomes", "%s/future/%s" % (kind, self.phase))
+            else:
+                self.R.seen("reissue_outcomes", "%s/%s" % (kind, r))
+
+    def issue(self, kinds, note="req", retry=None, tag="do", reissued=False):
+        """Issue one request per kind and leave it unanswered.  Returns [(kind, 'raised'|FutRec|None)].
+        ``retry``: 'same' | 'other' - the errback of each request re-issues one request (once)."""
         from autobahn.wamp.types import PublishOptions
         s = self.session
         out = []
+        on_err = (lambda rec: self._reissue(rec, retry)) if retry else None
         for k in kinds:
-            self.H.append(("do", "%s:%s" % (note, k)))
+            self.H.append((tag, "%s:%s" % (note, k)))
             try:
                 if k == "call":
                     f = s.call("com.c06.slow", 1)
@@ -663,15 +703,17 @@ class Life:
                 elif k == "register":
                     f = s.register(lambda *a, **kw: None, "com.c06.p3")
                 elif k == "unsubscribe":
-                    if self.sub is None or not self.sub.active:
+                    sub = next((x for x in (self.sub, self.sub2) if x is not None and x.active), None)
+                    if sub is None:
                         out.append((k, None))
                         continue
-                    f = self.sub.unsubscribe()
+                    f = sub.unsubscribe()
                 elif k == "unregister":
-                    if self.reg is None or not self.reg.active:
+                    reg = next((x for x in (self.reg, self.reg2) if x is not None and x.active), None)
+                    if reg is None:
                         out.append((k, None))
                         continue
-                    f = self.reg.unregister()
+                    f = reg.unregister()
                 else:
                     raise ValueError(k)
             except Exception as e:
@@ -680,7 +722,7 @@ class Life:
                 continue
             if _is_future(f):
                 self.nfut += 1
-                rec = FutRec(self, k, self.nfut, f, self.phase)
+                rec = FutRec(self, k, self.nfut, f, self.phase, on_err=on_err, reissued=reissued)
                 self.futs.append(rec)
                 out.append((k, rec))
             else:
@@ -688,10 +730,10 @@ class Life:
                 out.append((k, "returned-%s" % type(f).__name__))
         return out
 
-    def do_req(self, kinds):
+    def do_req(self, kinds, retry=None):
         if self.rp.ep.lost:
             return
-        self.issue(kinds)
+        self.issue(kinds, retry=retry)
         self.sync()
         self.R.count("requests_issued", len(kinds))
 
